@@ -298,6 +298,8 @@ def check_C03(tier):
     t = tier == "thorough"
     engine_run(c, "select", "SelectMenu", lines="Lines4", maxlines=4 if t else 3, maxfiles=2 if t else 1, modes=("batch", "incr"))
     engine_run(c, "select-extremes", "SelectMenu", lines="LinesBig", maxlines=2 if t else 1, maxfiles=1, modes=("batch", "incr"), tdefs=("plain", "vdef"))
+    # numbers compare by value: an INT column against REAL literals where the two types part company (2^53, 2^53 + 2, 2^63, -2^63), either side, every operator, IN, WHERE
+    engine_run(c, "int-real-edges", "NumCmpMenu", lines="LinesBig", maxlines=1, maxfiles=1, modes=("incr", "batch"), tdefs=("plain",))
     engine_run(c, "functions", "FunctionMenu", lines="LinesAgg", maxlines=3 if t else 2, maxfiles=1, modes=("incr", "batch"), tdefs=("plain",))
     # the same meaning when the statement is written with the fewest parentheses the standard precedence allows (what a user types)
     engine_run(c, "precedence", "PrecMenu", lines="Lines4", maxlines=2, maxfiles=1, modes=("incr", "batch"), tdefs=("plain",))
